@@ -1,5 +1,12 @@
 package extract
 
+import (
+	"fmt"
+	"go/ast"
+	"strconv"
+	"strings"
+)
+
 func init() {
 	for _, n := range []string{"trim", "partition", "readLine", "ParseOne", "Parse"} {
 		fingerprints["changelog."+n] = fpSpec{dir: "changelog", name: n}
@@ -11,4 +18,83 @@ func init() {
 		fingerprints["hashio.Hasher."+m] = fpSpec{dir: "hashio", recv: "Hasher", name: m}
 	}
 	fingerprints["internal.Copy"] = fpSpec{dir: "internal", name: "Copy"}
+}
+
+func init() { steps = append(steps, extractHashio) }
+
+// GetHash's and Verifier's algorithm switches: which names are supported, and that each
+// name is wired to the constructor of the same algorithm.
+func extractHashio(f *Facts) {
+	b := f.out("Hashio")
+	emit := func(factID, leanName string, fd *ast.FuncDecl, tag string) {
+		if fd == nil {
+			fmt.Fprintf(b, "def %s : Option (List (String × String)) := none\n\n", leanName)
+			f.fail(factID, "function not found")
+			return
+		}
+		var rows []string
+		ok := false
+		ast.Inspect(fd.Body, func(n ast.Node) bool {
+			sw, isSw := n.(*ast.SwitchStmt)
+			if !isSw || ok || sw.Tag == nil || f.src(sw.Tag) != tag {
+				return true
+			}
+			ok = true
+			for _, st := range sw.Body.List {
+				cc := st.(*ast.CaseClause)
+				body := ""
+				if len(cc.Body) >= 1 {
+					body = strings.ReplaceAll(f.src(cc.Body[0]), " ", "")
+				}
+				if cc.List == nil {
+					rows = append(rows, fmt.Sprintf("(%s, %s)", leanStr("default"), leanStr(strings.SplitN(body, "(", 2)[0])))
+					continue
+				}
+				for _, e := range cc.List {
+					if lit, isLit := e.(*ast.BasicLit); isLit {
+						s, _ := strconv.Unquote(lit.Value)
+						rows = append(rows, fmt.Sprintf("(%s, %s)", leanStr(s), leanStr(body)))
+					}
+				}
+			}
+			return false
+		})
+		if !ok {
+			fmt.Fprintf(b, "def %s : Option (List (String × String)) := none\n\n", leanName)
+			f.fail(factID, "no `switch "+tag+"` found")
+			return
+		}
+		fmt.Fprintf(b, "def %s : Option (List (String × String)) := some [%s]\n\n", leanName, strings.Join(rows, ", "))
+		f.ok(factID)
+	}
+	emit("hashio.GetHash:cases", "getHash", f.funcDecl("hashio", "GetHash"), "name")
+	emit("control.Verifier:cases", "verifier", f.method("control", "FileHash", "Verifier"), "c.Algorithm")
+	// unmarshalControl's ByHash table
+	um := f.method("control", "FileHash", "unmarshalControl")
+	var rows []string
+	if um != nil {
+		ast.Inspect(um.Body, func(n ast.Node) bool {
+			sw, isSw := n.(*ast.SwitchStmt)
+			if !isSw || sw.Tag == nil || f.src(sw.Tag) != "algorithm" {
+				return true
+			}
+			for _, st := range sw.Body.List {
+				cc := st.(*ast.CaseClause)
+				for _, e := range cc.List {
+					if lit, isLit := e.(*ast.BasicLit); isLit && len(cc.Body) == 1 {
+						s, _ := strconv.Unquote(lit.Value)
+						rows = append(rows, fmt.Sprintf("(%s, %s)", leanStr(s), leanStr(strings.ReplaceAll(f.src(cc.Body[0]), " ", ""))))
+					}
+				}
+			}
+			return false
+		})
+	}
+	if len(rows) > 0 {
+		fmt.Fprintf(b, "def byHash : Option (List (String × String)) := some [%s]\n\n", strings.Join(rows, ", "))
+		f.ok("control.unmarshalControl:byhash")
+	} else {
+		fmt.Fprintf(b, "def byHash : Option (List (String × String)) := none\n\n")
+		f.fail("control.unmarshalControl:byhash", "ByHash switch not found")
+	}
 }
